@@ -147,7 +147,24 @@ def isosteric_case(conv_name):
     except Exception as exc:
         return True, f"refused: {type(exc).__name__}"  # mixed bases are refused by the entry point
     ok = numpy.allclose(a, b, rtol=1e-6)
-    return bool(ok), '' if ok else f"before {a[:3]} after {b[:3]}"
+    if not ok:
+        return False, f"before {a[:3]} after {b[:3]}"
+    # the same with isotherm objects that were already used in a calculation and are then converted in place
+    isos3 = [_copy(i) for i in isos]
+    c.isosteric_enthalpy(isos3)
+    cv = dict(conv)
+    cv.pop('json', None)
+    t = cv.pop('temperature', None)
+    try:
+        if t:
+            isos3[1].convert_temperature(t)
+        if cv:
+            isos3[1].convert(**cv)
+        b3 = _flat(c.isosteric_enthalpy(isos3)['isosteric_enthalpy'])
+    except Exception as exc:
+        return True, f"refused: {type(exc).__name__}"
+    ok = numpy.allclose(a, b3, rtol=1e-6)
+    return bool(ok), '' if ok else f"before {a[:3]} after converting a used isotherm {b3[:3]}"
 
 
 def all_cases(thorough=False):
